@@ -865,7 +865,7 @@ func (g *c03Gen) msgID() string {
 		return pick(r, []string{"x", "a b@c", "<a@b>", "a@b>", "a@@b", "@", "a@", "é@b", "a@b c", "a\"b@c", "a@b\r\n", g.str() + " "})
 	}
 	left := pick(r, []string{"a", "abc.def", "1234", "x-y_z", "a!#$%&'*+/=?^_`{|}~b", "20240101.1"})
-	right := pick(r, []string{"b", "example.org", "mail.example.com", "[127.0.0.1]", "[x]", "localhost"})
+	right := pick(r, []string{"b", "example.org", "mail.example.com", "[127.0.0.1]", "[x]", "[<a>,b;c]", "localhost"})
 	return left + "@" + right
 }
 
